@@ -39,6 +39,14 @@ CLAIMED = {
             "hostile stream under exactly that invocation limit in a guarded child process, and its invocation counts equal the model's",
             "loops inside handlers are structural recursions over the received block / inflated tile stream; zlib and pixel expansion of fills excluded as stated",
             "Coq proof (well-founded measure, case analysis of all handlers) + regenerated formats/expect graph + differential correspondence incl. handler-invocation counts"),
+    "C03": ("Coq theorems about the handshake handlers of the RFB client model: version negotiation for all 10^6 banners >= 3.3 (by order "
+            "analysis over the regenerated SUPPORTED_SERVER_VERSIONS, not enumeration), security-type selection = max(offered & supported), "
+            "nothing reported as established while a run is still in the security phase (induction over the expect loop, all streams), the "
+            "security phase is left only by the three success transitions which write ClientInit, it is never re-entered, failure results "
+            "(incl. zero-length reasons) end in vncAuthFailed + close with no new expectation; real clients (base/library/CLI) judged "
+            "against RFC 6143 on generated handshakes and compared with the model",
+            "server versions below 3.3 excluded (the client raises); causal server after an unanswered challenge; after loseConnection Twisted stops reading (trusted)",
+            "Coq proof (case analysis of handshake handlers, induction over the expect loop) + regenerated constants/formats + differential correspondence"),
 }
 NOT_YET = "check not built yet in this session (planned Coq model in DESIGN.md §3); not claimed"
 
